@@ -1,8 +1,10 @@
 package main
 
 import (
+	"fmt"
 	"go/token"
 	"go/types"
+	"os"
 
 	"golang.org/x/tools/go/ssa"
 )
@@ -20,9 +22,12 @@ import (
 // unless it is compared first.
 var allocViaAdd, allocViaMul int
 
-func allocBounded(pr *Prog, at *ssa.BasicBlock, v ssa.Value, depth int, seen map[ssa.Value]bool) bool {
+func allocBounded(pr *Prog, at *ssa.BasicBlock, v ssa.Value, depth int, seen map[ssa.Value]bool) (res bool) {
 	if v == nil {
 		return false
+	}
+	if os.Getenv("TV_DEBUG_ALLOC") != "" {
+		defer func() { fmt.Fprintf(os.Stderr, "ALLOC %s %T %v depth=%d -> %v\n", v.Name(), v, v, depth, res) }()
 	}
 	if _, isC := ConstInt(v); isC {
 		return true
@@ -30,12 +35,12 @@ func allocBounded(pr *Prog, at *ssa.BasicBlock, v ssa.Value, depth int, seen map
 	if seen[v] {
 		// a loop-carried count: a running sum of bounded increments (bytes read into a bounded buffer), or
 		// a count the loop lets grow only while it is below a bounded value; never a product (doubling)
+		if allocViaMul == 0 && allocViaAdd > 0 {
+			return true // met again inside an additive cycle (the sum itself or its loop-carried phi)
+		}
 		ph, isPhi := v.(*ssa.Phi)
 		if !isPhi || ph.Referrers() == nil {
 			return false
-		}
-		if allocViaMul == 0 && allocViaAdd > 0 {
-			return true
 		}
 		for _, ref := range *ph.Referrers() {
 			bo, ok := ref.(*ssa.BinOp)
